@@ -26,8 +26,8 @@ type Held struct {
 	// AtExit: a deferred unlock of this lock was registered while it was definitely held: the lock is released when
 	// the function returns on every path through here, also when the defer sits in a branch
 	AtExit bool
-	Path ir.Path
-	Mode Mode
+	Path   ir.Path
+	Mode   Mode
 	// Tainted: inherited from a callee that is itself reported for this lock
 	// (held on some of its exits only, or held after releasing): not re-reported.
 	Tainted bool
